@@ -301,6 +301,34 @@ Definition infer_ambiguous (fuel:nat) (fd:fundef) : bool :=
       end
   end.
 
+(** Not part of the property either: does a generic record/union occur, in the signature or in the
+    body, with a type argument that still contains a type variable?  (fc leaves such variables
+    unresolved in some flows - known finding generic-named-args-not-unified - so the harness keeps
+    these functions in its hazard stream.) *)
+Fixpoint has_var (t:ty) : bool :=
+  match t with TVar _ => true | TAtom _ => false | TNode l r => has_var l || has_var r end.
+Fixpoint has_open_named (t:ty) : bool :=
+  match t with
+  | TNode l r =>
+      (match l with TAtom c => Nat.leb 8 c && has_var r | _ => false end)
+      || has_open_named l || has_open_named r
+  | _ => false
+  end.
+
+Definition infer_open_named (fuel:nat) (fd:fundef) : bool :=
+  let np := length (f_params fd) in
+  let G := combine (param_names fd) (map TVar (seq 0 np)) in
+  match gen G (f_body fd) np with
+  | None => false
+  | Some (t, es, _) =>
+      match unify fuel (ann_eqs (f_params fd) 0 ++ es) with
+      | Ok sg =>
+          existsb has_open_named
+            (map (app_seq sg) (t :: map TVar (seq 0 np) ++ eq_types es))
+      | _ => false
+      end
+  end.
+
 End Typing.
 
 (* ------------------------------------------------------------------ rendering (fc's text) *)
